@@ -31,7 +31,7 @@ fn seqs<T: Clone>(alpha: &[T], max: usize) -> Vec<Vec<T>> {
     all
 }
 
-const TEMPLATES: [&str; 18] = [
+const TEMPLATES: [&str; 19] = [
     // every documented key once, fixed-width and truncating variants
     "{spinner}{prefix}{msg}{pos}{human_pos}{len}{human_len}{percent}{percent_precise}{bytes}{total_bytes}{decimal_bytes}{decimal_total_bytes}{binary_bytes}{binary_total_bytes}",
     "{elapsed_precise}{elapsed}{per_sec}{bytes_per_sec}{decimal_bytes_per_sec}{binary_bytes_per_sec}{eta_precise}{eta}{duration_precise}{duration}{human_pos:>3!}{human_len:^40}",
@@ -52,7 +52,12 @@ const TEMPLATES: [&str; 18] = [
     "{k} {spinner}{bar:2}",
     "",
     "{eta} {elapsed} {per_sec} {bytes}",
+    // a custom key whose tracker redraws another bar while it is being written
+    "{nest}{pos} {msg}",
 ];
+
+/// Templates the builder may refuse (then there is nothing to render) or accept (then they must render).
+const MAYBE_TEMPLATES: [&str; 6] = ["{per_sec:65535}", "{per_sec:65536}", "{per_sec:4294967296}", "{msg:70000}", "{bar:70000}|{pos:>65536}", "{wide_msg:65536}"];
 
 enum Build {
     TickChars(String),
@@ -224,7 +229,12 @@ pub fn run(tier: Tier, shard: Shard, stats: &mut Stats) {
             stats.evaluations += 1;
             stats.transitions += 1;
             let hist = vec![format!("with_template({:?})", tpl), b.show()];
-            let base = ProgressStyle::with_template(tpl).unwrap().with_key("k", |_: &ProgressState, w: &mut dyn Write| write!(w, "K").unwrap());
+            let inner_catcher = LineCatcher::new(30);
+            let inner = bar_on(&inner_catcher, Some(3), ProgressStyle::with_template("{msg}{pos}/{len}").unwrap());
+            let base = ProgressStyle::with_template(tpl).unwrap().with_key("k", |_: &ProgressState, w: &mut dyn Write| write!(w, "K").unwrap()).with_key("nest", move |_: &ProgressState, w: &mut dyn Write| {
+                inner.tick();
+                write!(w, "N").unwrap()
+            });
             let mut nticks = 30u64;
             let built = catch(|| match b {
                 Build::TickChars(s) => base.clone().tick_chars(s),
@@ -257,6 +267,24 @@ pub fn run(tier: Tier, shard: Shard, stats: &mut Stats) {
                     Err(v) => stats.violation(v),
                 },
             }
+        }
+    }
+    // templates at the edge of what the parser takes: refused when the style is built, or rendered
+    for tpl in MAYBE_TEMPLATES {
+        case += 1;
+        if !shard.owns(case) {
+            continue;
+        }
+        stats.evaluations += 1;
+        stats.transitions += 1;
+        let hist = vec![format!("with_template({:?})", tpl), "default".to_string()];
+        match catch(|| ProgressStyle::with_template(tpl)) {
+            Err(p) => stats.violation(Violation { class: format!("with_template panics: {}", panic_class(&p)), config: "C14".into(), history: hist, detail: p }),
+            Ok(Err(_)) => stats.state_outcome(hash_of(&("refused", tpl)), false),
+            Ok(Ok(style)) => match exercise(style, 30, &hist, stats) {
+                Ok(h) => stats.state_outcome(hash_of(&(h, tpl)), true),
+                Err(v) => stats.violation(v),
+            },
         }
     }
     stats.sample(json!(["with_template(\"{spinner} {msg}\")", "tick_strings([\"a\"])"]));
